@@ -119,7 +119,10 @@ fn compare(spec: &NodeSpec, a: &Out, b: &Out, t: u64, m_hist: f64, m_flow: f64, 
             }
             let d = win[win.len() - 1 - n].c.abs();
             if d == 0.0 {
-                return skip;
+                // the reference price is exactly zero in both replicas: the reading is +-inf or NaN, and which of them is
+                // a function of the window alone - no tolerance applies, but the two replicas must still agree
+                let ok = a.same_bits(b) || (a.v[0].is_nan() && b.v[0].is_nan()) || a.v[0] == b.v[0];
+                return Cmp { ok, skipped: false, ratio: if ok { 0.0 } else { f64::INFINITY }, what: "zero reference price: same non-finite reading" };
             }
             let local = win.iter().map(|x| x.c.abs()).fold(0.0, f64::max) / d;
             if local > 1e6 {
